@@ -39,7 +39,11 @@ Inductive fgood : frame -> Prop :=
 | FG2 tr cnt args f rest : good P tr -> Forall (tin P) args -> Forall gin rest -> fgood (FFact tr cnt args f rest)
 | FG3 tr cnt fn args rest : good P tr -> Forall (tin P) args -> Forall gin rest -> fgood (FFun tr cnt fn args rest)
 | FG4 tr cnt args cl rest : good P tr -> Forall (tin P) args -> Forall gin rest -> fgood (FClause tr cnt args cl rest)
-| FG5 tr cnt nm args f rest : good P tr -> Forall (tin P) args -> Forall gin rest -> fgood (FRet tr cnt nm args f rest).
+| FG5 tr cnt nm args f rest : good P tr -> Forall (tin P) args -> Forall gin rest -> fgood (FRet tr cnt nm args f rest)
+| FG6 : fgood FBar
+| FG7 tr cnt rest : good P tr -> Forall gin rest -> fgood (FNeg tr cnt rest)
+| FG8 tr cnt bag acc nc rest : good P tr -> tin P bag -> Forall (tin P) acc -> Forall gin rest ->
+    fgood (FColl tr cnt bag acc nc rest).
 
 Lemma gin_rn f l : (forall k, P (f k) = true) -> Forall gin (map (rn_goal f) l).
 Proof.
@@ -100,6 +104,102 @@ Definition kgood (r : kres) : Prop :=
   | KAns tr m => good P tr /\ Forall fgood (mfr m)
   | _ => True
   end.
+Definition mgood (x : mres) : Prop := match x with MGo fr => Forall fgood fr | MErr _ => True end.
+
+Lemma cut_to_good p r : Forall fgood r -> Forall fgood (cut_to p r).
+Proof.
+  induction r as [|f r IH]; intros H; cbn [cut_to]; [constructor|].
+  destruct (p f); [exact (Forall_inv_tail H)|apply IH; exact (Forall_inv_tail H)].
+Qed.
+Lemma collect_into_good t' r : Forall fgood r -> Forall fgood (collect_into fresh t' r).
+Proof.
+  induction r as [|f r IH]; intros H; cbn [collect_into]; [constructor|].
+  pose proof (Forall_inv H) as Hf. pose proof (Forall_inv_tail H) as Hr.
+  destruct f; try (constructor; [exact Hf|apply IH; exact Hr]).
+  inversion Hf as [| | | | | | |tr0 cnt0 b0 a0 n0 r0 Gt Gb Ga Gg]; subst.
+  constructor; [|exact Hr]. constructor; auto. apply Forall_app. split; [|exact Ga].
+  apply lin_rn. intros k. apply Hfresh.
+Qed.
+Lemma mk_list_tin l : Forall (tin P) l -> tin P (mk_list l).
+Proof.
+  induction l as [|x l IH]; intros H; cbn [mk_list]; [apply tin_atom|].
+  apply tin_fun. constructor; [exact (Forall_inv H)|]. constructor; [|constructor].
+  apply IH. exact (Forall_inv_tail H).
+Qed.
+
+Lemma ctl_goal_frame h0 tr cnt nm args gs r : closed P h0 ->
+  good P tr -> Forall (tin P) args -> Forall gin gs -> Forall fgood r ->
+  ctl_goal (fP P h0) fresh tr cnt nm args gs r = ctl_goal h0 fresh tr cnt nm args gs r
+  /\ match ctl_goal h0 fresh tr cnt nm args gs r with Some x => mgood x | None => True end.
+Proof.
+  intros C Gt Ga Gg Hr. unfold ctl_goal.
+  destruct (str_eqb nm cut_mark).
+  { split; [reflexivity|]. cbn [mgood]. constructor; [constructor; auto|apply cut_to_good; exact Hr]. }
+  destruct (str_eqb nm neg_mark).
+  { split; [reflexivity|]. cbn [mgood]. apply cut_to_good; exact Hr. }
+  destruct (str_eqb nm coll_mark); [|split; [reflexivity|exact I]].
+  destruct args as [|t [|t2 args]]; try (split; [reflexivity|exact Hr]).
+  destruct (den2_step Gt C (Forall_inv Ga)) as [E D]. rewrite E.
+  split; [reflexivity|]. cbn [mgood]. apply collect_into_good. exact Hr.
+Qed.
+
+Lemma metastep_frame h0 b tr cnt args gs r : closed P h0 ->
+  good P tr -> Forall (tin P) args -> Forall gin gs -> Forall fgood r ->
+  metastep (fP P h0) b tr cnt args gs r = metastep h0 b tr cnt args gs r
+  /\ mgood (metastep h0 b tr cnt args gs r).
+Proof.
+  intros C Gt Ga Gg Hr. unfold metastep.
+  destruct b.
+  - destruct args as [|x [|y [|z args]]]; try (split; [reflexivity|exact I]).
+    split; [reflexivity|]. cbn [mgood].
+    constructor; [|constructor; [constructor; auto|exact Hr]].
+    constructor; [exact Gt|]. constructor; [exact Ga|]. constructor; [constructor|constructor].
+  - destruct args as [|g extra]; [split; [reflexivity|exact I]|].
+    destruct (den2_step Gt C (Forall_inv Ga)) as [E D]. rewrite E.
+    destruct (callable (den2 (tr ++ h0) g)) as [[nm fa]|] eqn:Ec; [|split; [reflexivity|exact I]].
+    split; [reflexivity|]. cbn [mgood]. constructor; [|exact Hr]. constructor; [exact Gt|].
+    constructor; [|exact Gg]. unfold gin. cbn [snd]. apply Forall_app. split.
+    + eapply callable_tin; eauto.
+    + exact (Forall_inv_tail Ga).
+  - destruct args as [|g [|g2 args]]; try (split; [reflexivity|exact I]).
+    destruct (den2_step Gt C (Forall_inv Ga)) as [E D]. rewrite E.
+    destruct (callable (den2 (tr ++ h0) g)) as [[nm fa]|] eqn:Ec; [|split; [reflexivity|exact I]].
+    split; [reflexivity|]. cbn [mgood]. constructor; [|constructor; [constructor|exact Hr]].
+    constructor; [exact Gt|]. constructor; [|constructor; [constructor|exact Gg]].
+    unfold gin. cbn [snd]. eapply callable_tin; eauto.
+  - destruct args as [|t [|g [|bag [|z args]]]]; try (split; [reflexivity|exact I]).
+    pose proof (Forall_inv (Forall_inv_tail Ga)) as Hg.
+    destruct (den2_step Gt C Hg) as [E D]. rewrite E.
+    destruct (callable (den2 (tr ++ h0) g)) as [[nm fa]|] eqn:Ec; [|split; [reflexivity|exact I]].
+    split; [reflexivity|]. cbn [mgood]. constructor.
+    + constructor; [exact Gt|]. constructor; [unfold gin; cbn [snd]; eapply callable_tin; eauto|].
+      constructor; [|constructor]. unfold gin. cbn [snd]. constructor; [exact (Forall_inv Ga)|constructor].
+    + constructor; [|exact Hr]. constructor; auto.
+      exact (Forall_inv (Forall_inv_tail (Forall_inv_tail Ga))).
+Qed.
+
+Lemma coll_finish_frame h0 tr cnt bag acc nc gs r : closed P h0 ->
+  good P tr -> tin P bag -> Forall (tin P) acc -> Forall gin gs -> Forall fgood r ->
+  coll_finish (fP P h0) tr cnt bag acc nc gs r = coll_finish h0 tr cnt bag acc nc gs r
+  /\ mgood (coll_finish h0 tr cnt bag acc nc gs r).
+Proof.
+  intros C Gt Gb Ga Gg Hr. unfold coll_finish.
+  assert (Hx : Forall (tin P) [bag]) by (constructor; auto).
+  assert (Hy : Forall (tin P) [mk_list (rev acc)]).
+  { constructor; [|constructor]. apply mk_list_tin. apply Forall_rev. exact Ga. }
+  pose proof (ua_step Gt C Hx Hy) as St.
+  destruct (unify_arrays2 UF (tr ++ h0) [bag] [mk_list (rev acc)]) as [s'| | |] eqn:E.
+  - destruct St as [tr' [-> [Gt' ->]]]. rewrite !strip_app. split; [reflexivity|].
+    cbn [mgood]. constructor; auto. constructor; auto.
+  - rewrite St. split; [reflexivity|exact Hr].
+  - rewrite St. split; [reflexivity|exact I].
+  - rewrite St. split; [reflexivity|exact I].
+Qed.
+
+Lemma lift_m_frame m x y : x = y -> mgood y -> lift_m m x = lift_m m y /\ kgood (lift_m m y).
+Proof. intros -> G. split; [reflexivity|]. destruct y; simpl; auto. Qed.
+
+
 Definition sgood (r : sres) : Prop :=
   match r with SAns tr m => good P tr /\ Forall fgood (mfr m) | _ => True end.
 
@@ -130,10 +230,17 @@ Lemma sstep_frame h0 m : closed P h0 -> Forall fgood (mfr m) ->
 Proof.
   intros C Hfr. unfold sstep. destruct (mfr m) as [|f r]; [simpl; auto|].
   pose proof (Forall_inv Hfr) as Hf. pose proof (Forall_inv_tail Hfr) as Hr.
-  destruct f as [tr cnt gs|tr cnt args f gs|tr cnt fn args gs|tr cnt args cl gs|tr cnt nm args f gs];
+  destruct f as [tr cnt gs|tr cnt args f gs|tr cnt fn args gs|tr cnt args cl gs|tr cnt nm args f gs| |tr cnt gs
+                 |tr cnt bag acc nc gs];
     inversion Hf as [tr0 cnt0 gs0 Gt Gg|tr0 cnt0 a0 f0 r0 Gt Ga Gg|tr0 cnt0 n0 a0 r0 Gt Ga Gg|tr0 cnt0 a0 c0 r0 Gt Ga Gg
-                     |tr0 cnt0 n0 a0 f0 r0 Gt Ga Gg]; subst.
+                     |tr0 cnt0 n0 a0 f0 r0 Gt Ga Gg| |tr0 cnt0 r0 Gt Gg|tr0 cnt0 b0 a0 n0 r0 Gt Gb Ga Gg]; subst.
+  6: { apply lift_m_frame; [reflexivity|exact Hr]. }
+  6: { apply lift_m_frame; [reflexivity|]. cbn [mgood]. constructor; [constructor; auto|exact Hr]. }
+  6: { destruct (coll_finish_frame cnt nc C Gt Gb Ga Gg Hr) as [E G]. apply lift_m_frame; auto. }
   - destruct gs as [|[nm args] gs]; [simpl; auto|].
+    destruct (@ctl_goal_frame h0 tr cnt nm args gs r C Gt (Forall_inv Gg) (Forall_inv_tail Gg) Hr) as [E G].
+    rewrite E. destruct (ctl_goal h0 fresh tr cnt nm args gs r) as [x|].
+    { apply lift_m_frame; auto. }
     split; [reflexivity|]. cbn [kgood mfr]. apply Forall_app. split.
     + apply Forall_forall. intros x Hx. apply in_map_iff in Hx as [y [<- _]].
       constructor; auto; [exact (Forall_inv Gg)|exact (Forall_inv_tail Gg)].
@@ -147,6 +254,8 @@ Proof.
     + rewrite St. simpl; auto.
     + rewrite St. simpl; auto.
   - destruct fn as [ds|]; [|simpl; auto].
+    destruct (meta_builtin ds) as [mb|].
+    { destruct (@metastep_frame h0 mb tr cnt args gs r C Gt Ga Gg Hr) as [E G]. apply lift_m_frame; auto. }
     destruct (db_builtin ds) as [b|].
     + destruct args as [|t [|t2 args]]; [simpl; auto| |simpl; auto].
       apply dbstep_frame; auto. exact (Forall_inv Ga).
